@@ -254,7 +254,9 @@ def build_proofs(prop, timeout=1500):
 
 
 def _coqc_file(path, timeout):
-    rc, out = sh(["timeout", str(timeout), "coqc", "-Q", COQ, "DJC", "-w", "-notation-overridden", path])
+    # large case literals (a rendered page of several hundred kB) overflow coqc's default 8 MB stack: lift the limit for the child
+    rc, out = sh("ulimit -s unlimited 2>/dev/null || ulimit -s 1000000 2>/dev/null; exec timeout %d coqc -Q %s DJC -w -notation-overridden %s"
+                 % (timeout, COQ, path))
     return rc, out
 
 
